@@ -120,6 +120,31 @@ class C02(Spec):
                 else:
                     a = rng.choice(sk)
                     h.append("jeq %d %d %d" % (a, a if rng.random() < 0.2 else rng.choice(sk), seed))
+            if rng.random() < 0.5:
+                # Jaccard / exactly_equal on subset-superset, identical and disjoint pairs with EQUAL theta (exact mode, or the same
+                # sampling probability and no rebuild), in both argument orders and several physical forms: the "identical sets" shortcut
+                # compares theta and retained counts, and is only right if it looks at both operands
+                lgk = rng.choice([7, 8])
+                p = rng.choice(["3f800000", "3f800000", "3f000000"])
+                base = rng.randrange(universe)
+                big = [base + x for x in range(rng.choice([2, 10, 40, 60]))]
+                sub = rng.sample(big, rng.randrange(1, len(big))) if len(big) > 1 else big
+                other = [base + 1000 + x for x in range(rng.choice([1, 5, 30]))]
+                ids = []
+                for items in (big, sub, list(big), other):
+                    i = fresh()
+                    h.append("new %d %d %d %s %d" % (i, lgk, rng.randrange(4), p, seed))
+                    for x in items:
+                        h.append("upd %d u64 %d" % (i, x))
+                    if rng.random() < 0.5:
+                        c = fresh()
+                        h.append("compact %d %d %d" % (i, c, rng.randrange(2)))
+                        i = c
+                    ids.append(i)
+                A, B, A2, D = ids
+                for x, y in ((A, B), (B, A), (A, A2), (A2, A), (A, D), (D, B), (B, B)):
+                    h.append("jac %d %d %d" % (x, y, seed))
+                    h.append("jeq %d %d %d" % (x, y, seed))
             hs.append(h)
         return hs
 
